@@ -279,6 +279,7 @@ extern "C" int vf_main(int argc,char**argv,void(*scenario)(void)){
   for(int j=0;j<jobs;j++){ if(pipe(zs[j].cmd)||pipe(zs[j].res)){ perror("pipe"); return 2; } }
   fflush(stdout); fflush(stderr);
   for(int j=0;j<jobs;j++){ pid_t z=fork(); if(z==0){ prctl(PR_SET_PDEATHSIG,SIGKILL);
+      if(!getenv("VF_NOPIN")){ long nc=sysconf(_SC_NPROCESSORS_ONLN); if(nc>0){ cpu_set_t cs; CPU_ZERO(&cs); CPU_SET(j%nc,&cs); sched_setaffinity(0,sizeof cs,&cs); } }   // all threads of an execution share one CPU: token hand-offs never wait for another (possibly descheduled) virtual CPU
       for(int k=0;k<jobs;k++){ close(zs[k].cmd[1]); close(zs[k].res[0]); if(k!=j){ close(zs[k].cmd[0]); close(zs[k].res[1]); } }
       if(!verbose){ int dn=open("/dev/null",O_WRONLY); if(dn>=0){ dup2(dn,1); dup2(dn,2); close(dn);} }
       char c; while(read(zs[j].cmd[0],&c,1)==1){ pid_t pid=fork();
